@@ -384,7 +384,11 @@ func Final(ctx context.Context, mod api.Module, m *wasmgen.Module, tr *Trace) {
 		}
 		return fmt.Sprintf("%x", r[0])
 	}
-	for _, g := range m.Globals {
+	globals := m.Globals
+	if m.Sink != nil {
+		globals = append(append([]wasmgen.GlobalInfo{}, globals...), *m.Sink)
+	}
+	for _, g := range globals {
 		eg := mod.ExportedGlobal(g.Export)
 		if eg == nil {
 			tr.Globals = append(tr.Globals, "missing")
